@@ -72,6 +72,17 @@ func runC17(c *Ctx) {
 		mp := testkeys.RSAMultiPrime() // three prime factors: as valid an RSA key as any
 		keys = append(keys, c17key{name: "rsa-2048-three-primes", signer: mp, pub: &mp.PublicKey, family: "rsa", rsaBits: 2048})
 	}
+	// moduli well beyond the usual sizes: "at least 2048 bits" has no upper end (the public half is all
+	// NewSigner / NewVerifier look at, so the modulus need not be a product of known primes)
+	for _, bits := range []int{8192, 8193, 12288, 16384} {
+		n := new(big.Int).Lsh(big.NewInt(1), uint(bits-1))
+		n.Add(n, new(big.Int).SetBytes(r.Bytes(64)))
+		n.SetBit(n, 0, 1)
+		pk := &rsa.PublicKey{N: n, E: 65537}
+		keys = append(keys, c17key{name: fmt.Sprintf("rsa-%d-public-only", bits), pub: pk, family: "rsa", rsaBits: bits})
+		keys = append(keys, c17key{name: fmt.Sprintf("foreign-signer-with-rsa-%d-public", bits), signer: foreignSigner{pk}, family: "rsa", rsaBits: bits})
+		keys = append(keys, c17key{name: fmt.Sprintf("rsa-%d-private-shell", bits), signer: &rsa.PrivateKey{PublicKey: *pk}, family: "rsa", rsaBits: bits})
+	}
 	for _, cv := range []elliptic.Curve{elliptic.P224(), elliptic.P256(), elliptic.P384(), elliptic.P521()} {
 		k := gen.ECKey(cv, r)
 		ok := cv != elliptic.P224()
